@@ -203,7 +203,8 @@ and the renamed table. -/
 theorem prefix_equivariant {P P' : Name} {c c' : Cfg} {t : Table τ} (s : Name) (typs : List τ)
     (hc : c.pfx = P) (hc' : c'.pfx = P') (hflags : c'.autoname = c.autoname ∧ c'.dedup = c.dedup)
     (hnames : ∀ n ∈ t.names, ∃ s, n = P ++ s)
-    (hfresh : ∀ s, P ++ s ∈ c.reserved ↔ P' ++ s ∈ c'.reserved) :
+    (hfresh : ∀ s, P ++ s ∈ c.reserved ↔ P' ++ s ∈ c'.reserved)
+    (hwords : ∀ s, P ++ s ∈ reservedWords ↔ P' ++ s ∈ reservedWords) :
     let g := rename P P'
     newName R c' (t.mapNames g) typs = g (newName R c t typs) ∧
     getFuncName R c' (t.mapNames g) typs
@@ -212,7 +213,7 @@ theorem prefix_equivariant {P P' : Name} {c c' : Cfg} {t : Table τ} (s : Name) 
       match setFuncName R c t (P ++ s) typs with
       | .ok (n, t') => .ok (g n, t'.mapNames g)
       | .error e => .error (e.map g) := by
-  have h := renaming_of_prefix (fn := P ++ s) (hintOf R typs) hc hc' hflags hnames ⟨s, rfl⟩ hfresh
+  have h := renaming_of_prefix (fn := P ++ s) (hintOf R typs) hc hc' hflags hnames ⟨s, rfl⟩ hfresh hwords
   refine ⟨newName_renamed R typs h, getFuncName_renamed R typs h, ?_⟩
   have := setFuncName_renamed R typs h
   rwa [rename_prefix] at this
@@ -223,7 +224,8 @@ theorem prefix_equivariant_global (p x s : Name) {c c' : Cfg} {t : Table τ} (ty
     (hc : c.pfx = derive ++ x) (hc' : c'.pfx = rho p (derive ++ x))
     (hflags : c'.autoname = c.autoname ∧ c'.dedup = c.dedup)
     (hnames : ∀ n ∈ t.names, ∃ s, n = (derive ++ x) ++ s)
-    (hfresh : ∀ s, (derive ++ x) ++ s ∈ c.reserved ↔ (p ++ x) ++ s ∈ c'.reserved) :
+    (hfresh : ∀ s, (derive ++ x) ++ s ∈ c.reserved ↔ (p ++ x) ++ s ∈ c'.reserved)
+    (hwords : ∀ s, (derive ++ x) ++ s ∈ reservedWords ↔ (p ++ x) ++ s ∈ reservedWords) :
     let g := rename (derive ++ x) (p ++ x)
     (∀ s, g ((derive ++ x) ++ s) = rho p ((derive ++ x) ++ s)) ∧
     newName R c' (t.mapNames g) typs = g (newName R c t typs) ∧
@@ -232,7 +234,7 @@ theorem prefix_equivariant_global (p x s : Name) {c c' : Cfg} {t : Table τ} (ty
       | .ok (n, t') => .ok (g n, t'.mapNames g)
       | .error e => .error (e.map g) := by
   have hc'' : c'.pfx = p ++ x := by rw [hc', rho_derive]
-  obtain ⟨h1, _, h3⟩ := prefix_equivariant R s typs hc hc'' hflags hnames hfresh
+  obtain ⟨h1, _, h3⟩ := prefix_equivariant R s typs hc hc'' hflags hnames hfresh hwords
   refine ⟨?_, h1, ?_⟩
   · intro s'
     rw [rename_prefix, List.append_assoc derive x s', rho_derive, List.append_assoc]
